@@ -10,6 +10,7 @@ package main
 import (
 	"fmt"
 	"math/rand/v2"
+	"net/netip"
 	"net/url"
 	"strings"
 	"time"
@@ -175,6 +176,16 @@ func init() {
 			}
 			r.Cert = a.Cert
 			r.Peer = "203.0.113.77"
+			if len(a.Nets) > 0 && st.N%3 != 0 {
+				// the adjacent block of the same size: as close to the netblock as an outside address can be
+				if pf, err := netip.ParsePrefix(a.Nets[0]); err == nil && pf.Bits() > 0 && pf.Bits() <= 32 {
+					b := pf.Masked().Addr().As4()
+					v := uint32(b[0])<<24 | uint32(b[1])<<16 | uint32(b[2])<<8 | uint32(b[3])
+					v ^= 1 << uint(32-pf.Bits())
+					v |= uint32(st.N) & (1<<uint(32-pf.Bits()) - 1)
+					r.Peer = netip.AddrFrom4([4]byte{byte(v >> 24), byte(v >> 16), byte(v >> 8), byte(v)}).String()
+				}
+			}
 		case "csrf":
 			r.Cookies[authCookieName] = mint(AuthTypeU2F|AuthTypePassword|need, time.Hour)
 			switch st.C {
@@ -286,7 +297,9 @@ func genRoutePlan(r *rand.Rand, tier string) *vfPlan {
 	add(vfStep{Op: "mintsession", Sess: "ma", User: "mallory", N: int64(AuthTypeU2F | AuthTypePassword)})
 	add(vfStep{Op: "certgen", Sess: "ma", User: "mallory", A: "x509", B: "user_rsa2048_4", D: "8h"})
 	add(vfStep{Op: "mintsession", Sess: "adm", User: "root", N: int64(AuthTypeU2F | AuthTypePassword)})
-	add(vfStep{Op: "rolecert", Sess: "adm", A: "auto1", L: []string{"10.20.0.0/16"}, B: "user_p256_3"})
+	bits := 8 + r.IntN(24)
+	na := uint32(r.Uint64())
+	add(vfStep{Op: "rolecert", Sess: "adm", A: "auto1", L: []string{netip.PrefixFrom(netip.AddrFrom4([4]byte{byte(na >> 24), byte(na >> 16), byte(na >> 8), byte(na)}), bits).Masked().String()}, B: "user_p256_3"})
 	add(vfStep{Op: "expire_cookie"})
 	if chance(r, 0.5) {
 		add(vfStep{Op: "mintsession", Sess: "web", User: "alice", N: int64(AuthTypeU2F | AuthTypePassword | AuthTypeTOTP | AuthTypeSymantecVIP)})
